@@ -187,11 +187,34 @@ def run_translators():
         if hasattr(mod, "generate"):
             try:
                 done[name] = mod.generate()
+                TRANSLATOR_FAILURES.pop(name, None)
             except BuildError:
                 raise
             except Exception as e:
-                raise TranslatorError("translator %s no longer recognises the source: %s" % (name, e))
+                # The tie of THIS translator is broken, not every property's: what it generates is removed (source and compiled
+                # forms, so that nothing builds against a stale copy) and the failure is remembered; the property files that
+                # depend on the removed module then fail to build and name the translator, the others are not affected.
+                msg = "translator %s no longer recognises the source: %s" % (name, str(e)[:600])
+                TRANSLATOR_FAILURES[name] = msg
+                for out in TRANSLATOR_OUTPUTS.get(name, []):
+                    if name == "gen_syntax" and getattr(e, "kept", None) and out in e.kept:
+                        continue
+                    for ext in (".v", ".vo", ".vos", ".vok", ".glob"):
+                        q = os.path.join(COQ, "Gen", out + ext)
+                        if os.path.exists(q):
+                            os.remove(q)
     return done
+
+
+# module (under coq/Gen) written by each translator
+TRANSLATOR_OUTPUTS = {"consts": ["Consts"], "diag": ["DiagCodes"], "gen_syntax": ["Registry", "Grammar"], "overloads": ["Overloads"],
+                      "registry_full": ["RegistryFull"], "resultmap": ["ResultMap"], "statics": ["Statics"]}
+TRANSLATOR_FAILURES = {}
+
+
+def translator_note():
+    """what to say next to a failed proof build when a translator failed in this process"""
+    return ("; ".join(TRANSLATOR_FAILURES[k] for k in sorted(TRANSLATOR_FAILURES))) if TRANSLATOR_FAILURES else ""
 
 
 class TranslatorError(Exception):
@@ -278,14 +301,14 @@ def coq_property_file(pid, timeout=1500, stem=None):
                          cwd=COQ, timeout=timeout + 30)
         res["log"] = out
         if rc != 0:
-            res["bad"].append("make %s.vo failed%s" % (stem, coq_failure_site(out)))
+            res["bad"].append("make %s.vo failed%s%s" % (stem, coq_failure_site(out), (" [" + translator_note() + "]") if translator_note() else ""))
             return res
         # now compile the property file itself again, capturing what it prints
         args = coqproject_args()
         rc, out = sh("timeout %d coqc %s %s.v" % (timeout, args, stem), cwd=COQ, timeout=timeout + 30)
         res["log"] += out
         if rc != 0:
-            res["bad"].append("coqc %s.v failed%s" % (stem, coq_failure_site(out)))
+            res["bad"].append("coqc %s.v failed%s%s" % (stem, coq_failure_site(out), (" [" + translator_note() + "]") if translator_note() else ""))
             return res
     # every Theorem must be followed by Print Assumptions; parse outputs in order
     chunks = re.split(r"(?m)^(?=Closed under the global context|Axioms:)", out)
